@@ -88,6 +88,33 @@ func fmtSprint(v *VM, va []Value) string {
 	return sb.String()
 }
 
+// fmtArg gives fmt.Sprintf the Go value a script value stands for, so that verbs such as %d, %t,
+// %x, %c and %f apply to it; other values are formatted through their String method.
+func fmtArg(a Value) any {
+	switch a.t.base() {
+	case TypeBool:
+		return a.Bool()
+	case TypeInt32:
+		return int32(a.num)
+	case TypeUint32:
+		return uint32(a.num)
+	case TypeInt8:
+		return int8(a.num)
+	case TypeUint8:
+		return uint8(a.num)
+	case TypeFloat64:
+		return a.num
+	case untypedInt:
+		if a.num == float64(int32(a.num)) {
+			return int32(a.num)
+		}
+		return a.num
+	case TypeString:
+		return a.String()
+	}
+	return a
+}
+
 func loadFmt(g *lookup) {
 	g.Set("fmt.Sprint", NewFunc(1, 1, func(v *VM, args []Value, vargs ...Value) []Value {
 		return []Value{String(fmtSprint(v, vargs))}
@@ -103,7 +130,7 @@ func loadFmt(g *lookup) {
 	g.Set("fmt.Sprintf", NewFunc(2, 1, func(v *VM, args []Value, vargs ...Value) []Value {
 		var va []any
 		for _, v := range vargs {
-			va = append(va, v)
+			va = append(va, fmtArg(v))
 		}
 		return []Value{String(fmt.Sprintf(args[0].String(), va...))}
 	}))
